@@ -191,7 +191,10 @@ fn gen_type_case(ch: &mut Chooser, max_depth: usize) -> TypeCase {
 
 // ---------- structural constructs ----------
 
-const STRUCTURAL: [&str; 23] = [
+const STRUCTURAL: [&str; 26] = [
+    "const-not",
+    "const-not-paren",
+    "const-deref-ref",
     "flatten-struct-field-with-serialized-as",
     "flatten-variant-field-with-serialized-as",
     "flatten-struct-field-after-rename",
@@ -315,6 +318,9 @@ pub fn structural_program(kind: &str, skip: Skip) -> Option<(File, Option<File>)
                 "const-sum" => (Ty::Prim("u32"), "1 + 2"),
                 "const-call" => (Ty::Prim("u32"), "compute(7)"),
                 "const-negative" => (Ty::Prim("i32"), "-5"),
+                "const-not" => (Ty::Prim("u32"), "!0"),
+                "const-not-paren" => (Ty::Prim("u32"), "!(5)"),
+                "const-deref-ref" => (Ty::Prim("u32"), "*&7"),
                 _ => (Ty::Prim("u32"), "(9)"),
             };
             File::single(vec![Item::new("LIMIT", IKind::Const { ty, expr: expr.into() })])
@@ -341,6 +347,9 @@ pub fn check_structural(kind: &'static str, skip: Skip, lang: Lang, choices: &[u
     // integer-valued constant expressions typeshare can represent exactly are fine as long as the value is right
     let const_value: Option<&str> = match kind {
         "const-negative" => Some("-5"),
+        "const-not" => Some("4294967295"),
+        "const-not-paren" => Some("4294967290"),
+        "const-deref-ref" => Some("7"),
         "const-paren" => Some("9"),
         _ => None,
     };
